@@ -35,7 +35,7 @@ def index_terms(fs, limit=14):
     return out[:limit]
 
 
-def instantiate(h, terms, cap=160):
+def instantiate(h, terms, cap=160, keep_quant=False):
     """ground instances of a top-level ForAll over Int variables"""
     if not (z3.is_quantifier(h) and h.is_forall()):
         return []
@@ -48,7 +48,7 @@ def instantiate(h, terms, cap=160):
         # de Bruijn: variable 0 is the innermost = last declared
         inst = z3.substitute_vars(h.body(), *reversed(tup))
         from .core import has_quant
-        if not has_quant(inst):
+        if keep_quant or not has_quant(inst):
             out.append(inst)
     return out
 
@@ -81,7 +81,12 @@ def finite_support(a, terms, depth=0):
     rng = srt.range()
     if srt.domain() != z3.IntSort():
         return None
-    if rng == z3.IntSort():
+    heap = a.decl().name().startswith('H') if z3.is_const(a) else False
+    if heap and not isinstance(rng, z3.ArraySortRef):
+        # entity fields: an arbitrary (but uniform) default outside the scope
+        _fs[0] += 1
+        base = z3.K(z3.IntSort(), z3.Const(f"fsd!{_fs[0]}", rng))
+    elif rng == z3.IntSort():
         base = z3.K(z3.IntSort(), z3.IntVal(0))
     elif rng == z3.BoolSort():
         base = z3.K(z3.IntSort(), z3.BoolVal(False))
@@ -103,6 +108,41 @@ def finite_support(a, terms, depth=0):
     return cons
 
 
+def ground_solver(assertions, timeout_ms):
+    """the finite-scope weakening of a VC given as a list of assertions (hypotheses and the negated goal)"""
+    from .core import has_quant
+    s = z3.Solver()
+    s.set('timeout', timeout_ms)
+    qf = [h for h in assertions if not has_quant(h)]
+    terms = index_terms(qf)
+    scope = terms[:8]
+    outside = z3.Int('fs!outside')
+    for t in scope:
+        s.add(outside != t)
+    terms = [outside] + terms
+    for a in array_consts(list(assertions)):
+        if a.decl().name() == 'alloc0':
+            continue
+        for cst in finite_support(a, scope) or []:
+            s.add(cst)
+    snf = z3.Tactic('snf')
+    for h in assertions:
+        if has_quant(h):
+            for inst in instantiate(h, terms, keep_quant=True):
+                if has_quant(inst):
+                    try:
+                        for sub in snf(inst)[0]:
+                            if not has_quant(sub):
+                                s.add(sub)
+                    except Exception:
+                        pass
+                else:
+                    s.add(inst)
+        else:
+            s.add(h)
+    return s
+
+
 def to_smt2(ob, ground=False):
     """ground=True: the quantifier-free hypotheses plus ground instances of the universal ones at the index terms of
     the VC.  A model of this weaker query is only a *candidate*: it counts when it validates against the full VC
@@ -113,15 +153,29 @@ def to_smt2(ob, ground=False):
     if ground:
         terms = index_terms(qf + [ob.goal])
         scope = terms[:8]
+        # one representative of everything outside the scope: the uniform defaults must satisfy the universal facts too
+        outside = z3.Int('fs!outside')
+        for t in scope:
+            s.add(outside != t)
+        terms = [outside] + terms
         for a in array_consts(list(ob.hyps) + [ob.goal]):
-            if a.decl().name().startswith('H'):
-                continue        # heap fields: unconstrained outside the scope
+            if a.decl().name() == 'alloc0':
+                continue
             for cst in finite_support(a, scope) or []:
                 s.add(cst)
+        snf = z3.Tactic('snf')
         for h in ob.hyps:
             if has_quant(h):
-                for inst in instantiate(h, terms):
-                    s.add(inst)
+                for inst in instantiate(h, terms, keep_quant=True):
+                    if has_quant(inst):
+                        try:
+                            for sub in snf(inst)[0]:
+                                if not has_quant(sub):
+                                    s.add(sub)
+                        except Exception:
+                            pass
+                    else:
+                        s.add(inst)
             else:
                 s.add(h)
     else:
@@ -209,9 +263,9 @@ def solve_one(args):
     # no verdict: look for a candidate counterexample of the quantifier-free weakening (counts only if replay confirms it)
     if ground:
         try:
-            s = z3.Solver()
-            s.set('timeout', Z3_MS)
-            s.from_string(ground)
+            s0 = z3.Solver()
+            s0.from_string(text)
+            s = ground_solver(list(s0.assertions()), Z3_MS)
             for attempt in range(3):
                 r = s.check()
                 log.append(('z3-5.1(api) ground-instances', str(r), round(time.time() - t0, 3)))
